@@ -138,6 +138,7 @@ func gen(t *rapid.T) Case {
 	c.IDP = idpkit.IDPConf{
 		Base:          rapid.SampledFrom([]string{"https://idp.example.com", "https://idp.example.com:8443/auth"}).Draw(t, "base"),
 		Signer:        rapid.Bool().Draw(t, "signer"),
+		StaleKey:      rapid.IntRange(0, 2).Draw(t, "stalekey") == 0,
 		SigMethod:     rapid.SampledFrom(idpkit.RSAMethods).Draw(t, "sigmethod"),
 		Intermediates: rapid.SampledFrom([]int{0, 0, 1, 2}).Draw(t, "intermediates"),
 	}
@@ -679,7 +680,8 @@ func check(c Case) (res pbt.Result) {
 			}
 			res.Classes = append(res.Classes, "outcome:error-status")
 			// non-vacuity: when the selected endpoint is a registered HTTP-POST one the IdP has everything it needs
-			if o.sel != nil && o.sel.Binding == post && idpkit.Member(*o.sel, idpkit.AllACS(md)) {
+			// (an IdP that refuses to work with both Key and Signer configured would be within the property)
+			if o.sel != nil && o.sel.Binding == post && idpkit.Member(*o.sel, idpkit.AllACS(md)) && !c.IDP.StaleKey {
 				res.Err = fmt.Sprintf("non-vacuity: status %d although an HTTP-POST endpoint %s was selected; log: %v", o.status, idpkit.EndpointKey(o.sel), o.log)
 				res.NonTrivial = true
 			}
@@ -730,7 +732,7 @@ func enumConfigs(_ string, emit func(Case)) {
 							if flow == "initiated" && clock != 0 {
 								continue
 							}
-							c := Case{IDP: idpkit.IDPConf{Base: "https://idp.example.com", Signer: signer, SigMethod: m, Intermediates: inter},
+							c := Case{IDP: idpkit.IDPConf{Base: "https://idp.example.com", Signer: signer, StaleKey: signer && inter == 1, SigMethod: m, Intermediates: inter},
 								SkewMs: 180000, DelayMs: 3600000,
 								SP: SPMeta{EntityID: "https://sp.example.com/saml/metadata", KeyUse: use, KeyName: "sp",
 									Descs: [][]EP{{{Binding: post, Location: "https://sp.example.com/saml/acs", Index: 0}, {Binding: post, Location: "https://sp.example.com/saml/acs/b", Index: 1, Default: &tr}}}},
